@@ -25,7 +25,7 @@ def make_cases(ctx, first):
         if small:
             # requests that open and close a session within one handler (monolithic POST, mount, manifest PUT)
             # race with the asynchronously started count prune: keep them out of the histories with a small limit
-            prof = dict(PROFILE, mono=0, mount=0, image=0, index=0, artifact=0, retag=0, repush=0)
+            prof = dict(PROFILE, mono=0, mount=0, image=0, index=0, artifact=0, retag=0, repush=0, negotiate=0)
         w = gen.World(rng, conf, profile=prof)
         target = steps
         while len(w.steps) < target:
